@@ -886,6 +886,9 @@ func (rw *rewriter) selectStmt(s *ast.SelectStmt, label *ast.Ident) ast.Stmt {
 		body = append(body, rw.stmts(cl.cc.Body)...)
 		swCases = append(swCases, &ast.CaseClause{List: []ast.Expr{caseVal}, Body: body})
 	}
+	// A select whose arms all end in return (or panic) is a terminating statement; the dispatch switch
+	// is one too only with a default clause (never reached: the index comes from the select above).
+	swCases = append(swCases, &ast.CaseClause{Body: []ast.Stmt{&ast.ExprStmt{X: call(ident("panic"), &ast.BasicLit{Kind: token.STRING, Value: `"simrt: select dispatch out of range"`})}}})
 	sw := &ast.SwitchStmt{Tag: ident(selN), Body: &ast.BlockStmt{List: swCases}}
 	pre = append(pre, labeled(label, sw))
 	return &ast.BlockStmt{List: pre}
